@@ -394,6 +394,13 @@ func (b *blob) fetchRange(allData map[region]io.Writer, opts *options) error {
 	// If we fail reading from cache, fetch from remote registry again
 	if err == nil && shared {
 		if err := b.handleSharedFetch(allData, fetched, opts); err != nil {
+			// A copy from the cache can fail after delivering a part of a chunk. The retry
+			// delivers the chunks from their beginning again so restart the writers.
+			for _, w := range allData {
+				if bw, ok := w.(*bytesWriter); ok {
+					bw.current = 0
+				}
+			}
 			return b.fetchRange(allData, opts) // retry on error
 		}
 	}
